@@ -616,8 +616,10 @@ def text_rule(ctx):
     vp = [g for g in tc.fns if g.base == "Value" and g.name == "parse_until_before" and g.body]
     if vp:
         g = vp[0]
-        has_plus = any(n.get("k") == "struct" and n["segs"][-1] == "Plus" for n in sir.walk(g.node, into_items=True))
-        has_wrap = any(n.get("k") == "struct" and n["segs"][-1] == "ToStringWithoutUndefined" for n in sir.walk(g.node, into_items=True))
+        # (the wrapping may be done by a nested fn or by a private helper of the module)
+        reach_nodes = list(sir.walk_reach(tc, g, into_items=True))
+        has_plus = any(n.get("k") == "struct" and n["segs"][-1] == "Plus" for n in reach_nodes)
+        has_wrap = any(n.get("k") == "struct" and n["segs"][-1] == "ToStringWithoutUndefined" for n in reach_nodes)
         obs.append(ob("C04.text/mixed", has_plus and has_wrap, ctx.where(g), "mixed text is `literal + Y(binding)` chains: Plus=%s, ToStringWithoutUndefined=%s" % (has_plus, has_wrap)))
     return obs
 
